@@ -580,7 +580,7 @@ func TestC06(t *testing.T) {
 	rec.R.Exhaustive = true
 	rec.Flush()
 	// random shapes
-	total := 600 / cfg.NShards
+	total := 8000 / cfg.NShards
 	if cfg.Thorough() {
 		total = 60000 / cfg.NShards
 	}
